@@ -40,11 +40,50 @@ Theorem C17_wire :
                flat_map (fun pc => c_bytes (snd pc)) tr = to_string es.
 Proof.
   intros cfg beh Huni st v es S Hes v'.
+  pose proof (sync_step cfg beh Huni st v (WStr es) S (wf_elems_c es Hes)) as H. cbv zeta in H.
+  destruct H as (_ & (tr & Hpl & Htr) & _).
+  exists tr. split; [exact Htr|].
+  rewrite (placed_text _ _ _ _ Hpl (wf_elems_c es Hes)). cbn [op_elems op_elements].
+  rewrite (no_ctl_visible es (wf_elems_no_ctl es Hes)). reflexivity.
+Qed.
+Print Assumptions C17_wire.
+
+(* the same for strings containing format effectors (newline, carriage
+   return, tab, backspace): the terminal shows the glyphs of the other
+   elements, in order; the effectors themselves are text on the wire (next
+   theorem) but not glyphs *)
+Theorem C17_wire_with_format_effectors :
+  forall cfg beh, (b_unicode_all beh = true -> unicode_all cfg = true) ->
+  forall st v es, Sync beh st v -> forallb wf_elem_c es = true ->
+    let v' := vt_bytes cfg v (obytes beh st (WStr es)) in
+    exists tr, trace v' = rev tr ++ trace v /\
+               flat_map (fun pc => c_bytes (snd pc)) tr = to_string (visible es).
+Proof.
+  intros cfg beh Huni st v es S Hes v'.
   pose proof (sync_step cfg beh Huni st v (WStr es) S Hes) as H. cbv zeta in H.
   destruct H as (_ & (tr & Hpl & Htr) & _).
   exists tr. split; [exact Htr|]. exact (placed_text _ _ _ _ Hpl Hes).
 Qed.
-Print Assumptions C17_wire.
+Print Assumptions C17_wire_with_format_effectors.
+
+(* on the wire, for EVERY string (any glyphs, control characters included) and
+   every state: the bytes that are not part of a control function the library
+   emits are exactly the glyphs' wire bytes in order - to_string of the string
+   whenever its UTF-8 glyphs are well-formed.  Attributes and character sets
+   never alter, drop or duplicate text. *)
+Theorem C17_payload :
+  forall beh st es,
+    payload_of (snd (write_elements beh st es)) = flat_map (fun e => wire (eg e)) es /\
+    (forallb (fun e => negb (cs_eqb (gcs (eg e)) CsUtf8) || wf_utf8 (eg e)) es = true ->
+     payload_of (snd (write_elements beh st es)) = to_string es).
+Proof.
+  intros beh st es. split; [apply payload_write_elements|].
+  intros H. rewrite payload_write_elements. unfold to_string.
+  induction es as [|e r IH]; [reflexivity|].
+  cbn [forallb] in H. apply andb_prop in H as [He Hr]. cbn [flat_map]. rewrite (IH Hr). f_equal.
+  apply wire_text. destruct (cs_eqb (gcs (eg e)) CsUtf8); [right; exact He|left; reflexivity].
+Qed.
+Print Assumptions C17_payload.
 
 Example C17_nonvacuous :
   wire (mkGlyph CsUtf8 0 0 0) = [0] /\ glyph_text (mkGlyph CsUtf8 0 0 0) = [0] /\
